@@ -3,7 +3,7 @@ From ChiaV.Base Require Import Bytes.
 From ChiaV.Clvm Require Import Sexp TreeHash.
 From ChiaV.Gen Require Import ChainConsts.
 From ChiaV.Cond Require Import Model.
-From ChiaV.Chain Require Import Backref Rom Generator GeneratorSpec Trusted TrustedSpec TrustedProofs.
+From ChiaV.Chain Require Import Backref Rom Generator GeneratorSpec Trusted TrustedSpec TrustedProofs TrustedRebuildProofs.
 Open Scope N_scope.
 From ChiaV.Props Require Import C09.
 Check C09_additions_and_removals :
@@ -70,3 +70,61 @@ Check C09_example :
     additions_and_removals run H program refs gf = Ok (adds, map removal_of spends) /\
     map snd adds = [Some (repeat x33 32)].
 Print Assumptions C09_example.
+Check C09_rebuild :
+  forall run valid_key sig_ok H K, run_exact_hyp run -> run_quote_hyp run ->
+  forall program refs max_cost gf b spends pairs,
+    run_block_generator2 run valid_key sig_ok H K program refs max_cost gf = Ok (b, spends, pairs) ->
+    max_cost <= MAX_BLOCK_COST_CLVM ->
+    exists out iter cs,
+      native_generator_output run program refs max_cost gf = Ok out /\ first out = Ok iter /\
+      get_coinspends_for_trusted_block run H program refs gf = Ok cs /\
+      (Forall fits_tuple (spend_tuples iter) ->
+       build_generator (rev cs) = Some (rebuilt_generator iter) /\
+       forall program' max_cost',
+         solution_generator (rev cs) = Some program' ->
+         match run_block_generator2 run valid_key sig_ok H K program' [] max_cost' gf return Prop with
+         | Ok s' => neutral s' = neutral (b, spends, pairs)
+         | Err e => e = CostExceeded
+         end).
+Print Assumptions C09_rebuild.
+Check C09_build_generator_reverses :
+  forall l items,
+  Forall2 (fun c it => spend_item c = Some it) l items ->
+  forall acc, prepend_spends l acc = Some (fold_right Pair acc (rev items)).
+Print Assumptions C09_build_generator_reverses.
+Check C09_spend_bundle_additions :
+  forall run valid_key sig_ok H K, run_exact_hyp run ->
+  forall program refs max_cost gf b spends pairs,
+    run_block_generator2 run valid_key sig_ok H K program refs max_cost gf = Ok (b, spends, pairs) ->
+    max_cost <= MAX_BLOCK_COST_CLVM ->
+    f_no_unknown (g_cond gf) = true ->
+    exists out iter cs,
+      native_generator_output run program refs max_cost gf = Ok out /\ first out = Ok iter /\
+      get_coinspends_for_trusted_block run H program refs gf = Ok cs /\
+      (Forall fits_tuple (spend_tuples iter) ->
+       match spend_bundle_additions run H cs return Prop with
+       | Ok coins => coins = map fst (concat (map expected_additions spends))
+       | Err e => e = CostExceeded
+       end).
+Print Assumptions C09_spend_bundle_additions.
+Check C09_coin_spends_with_conditions :
+  forall run valid_key sig_ok H K, run_exact_hyp run ->
+  forall program refs max_cost gf b spends pairs,
+    run_block_generator2 run valid_key sig_ok H K program refs max_cost gf = Ok (b, spends, pairs) ->
+    max_cost <= MAX_BLOCK_COST_CLVM ->
+    exists out iter,
+      native_generator_output run program refs max_cost gf = Ok out /\ first out = Ok iter /\
+      get_coinspends_with_conditions_for_trusted_block run H program refs gf =
+        Ok (map (csc_of run) (combine spends (spend_tuples iter))).
+Print Assumptions C09_coin_spends_with_conditions.
+Check C09_rebuild_example :
+  exists run H, run_exact_hyp run /\ run_quote_hyp run /\
+  exists vk sig K program refs max_cost gf b spends pairs cs program' s',
+    run_block_generator2 run vk sig H K program refs max_cost gf = Ok (b, spends, pairs) /\
+    get_coinspends_for_trusted_block run H program refs gf = Ok cs /\
+    solution_generator (rev cs) = Some program' /\ program' <> program /\
+    run_block_generator2 run vk sig H K program' [] max_cost gf = Ok s' /\
+    neutral s' = neutral (b, spends, pairs) /\
+    spend_bundle_additions run H cs = Ok (map fst (concat (map expected_additions spends))) /\
+    length (concat (map expected_additions spends)) = 1%nat.
+Print Assumptions C09_rebuild_example.
